@@ -102,23 +102,23 @@ func (v *Vue) evalAttributes(ctx VueContext, n *html.Node) (map[string]any, erro
 		if staticIdx >= 0 {
 			// Merge with static attribute (special handling for class and style)
 			if attrName == "class" {
-				newAttrs[staticIdx].Val = fmt.Sprintf("%s %v", newAttrs[staticIdx].Val, boundValue)
+				newAttrs[staticIdx].Val = newAttrs[staticIdx].Val + " " + helpers.Sprint(boundValue)
 				continue
 			}
 			if attrName == "style" {
 				// Merge styles, with bound value taking precedence
 				staticStyle := newAttrs[staticIdx].Val
-				mergedStyle := v.mergeStyles(staticStyle, fmt.Sprint(boundValue))
+				mergedStyle := v.mergeStyles(staticStyle, helpers.Sprint(boundValue))
 				newAttrs[staticIdx].Val = mergedStyle
 				continue
 			}
 			// For other attributes, bound value replaces static
-			newAttrs[staticIdx].Val = fmt.Sprint(boundValue)
+			newAttrs[staticIdx].Val = helpers.Sprint(boundValue)
 		} else {
 			if helpers.IsTruthy(boundValue) {
 				newAttrs = append(newAttrs, html.Attribute{
 					Key: attrName,
-					Val: fmt.Sprint(boundValue),
+					Val: helpers.Sprint(boundValue),
 				})
 				continue
 			}
@@ -358,7 +358,7 @@ func (v *Vue) buildStyleString(pairs []objectPair) string {
 		if key == "" || pair.val == nil {
 			continue
 		}
-		value := strings.TrimSpace(fmt.Sprint(pair.val))
+		value := strings.TrimSpace(helpers.Sprint(pair.val))
 
 		if value != "" {
 			// Convert camelCase to kebab-case if the key doesn't contain hyphens
